@@ -986,8 +986,15 @@ class Interp:
         enter = self.env.cm_enter(self, cm)
         if item.optional_vars is not None:
             self.assign(item.optional_vars, enter, fr)
+        is_sup = isinstance(cm, Obj) and cm.cls == 'suppress'
+        if is_sup:
+            self.suppress_stack.append(cm)
         try:
-            self.exec_with(s, i + 1, fr)
+            try:
+                self.exec_with(s, i + 1, fr)
+            finally:
+                if is_sup:
+                    self.suppress_stack.pop()
         except PyRaise as pr:
             if self.env.cm_exit(self, cm, pr.exc):
                 return      # suppressed
